@@ -408,7 +408,9 @@ Definition dispose (auth : name) (q : question) (m : umsg) : disposition :=
 
 (* Cache.additionalAnswer, the scan before any sub-query: the answer is complete (no chase)
    when a record of the asked type is met; a CNAME to the question's own name before that
-   is answered SERVFAIL; otherwise the last CNAME's target is re-resolved *)
+   - compared without regard to ASCII letter case since /repo a4faf69: strings.EqualFold(cr.Target, q.Name);
+   Go's EqualFold is Unicode simple folding, which coincides with [name_eqb]'s ASCII fold on the ASCII names
+   the drivers generate - is answered SERVFAIL; otherwise the last CNAME's target is re-resolved *)
 Inductive scan := ScanComplete | ScanLoop | ScanChase (target : name) | ScanNothing.
 Fixpoint bytes_list_eqb (a b : name) : bool :=
   match a, b with
@@ -423,7 +425,7 @@ Fixpoint scan_answer (q : question) (answer : list rr) (pending : option name) :
       if rr_type r =? q_type q then ScanComplete
       else if rr_type r =? T_CNAME then
         match rr_data r with
-        | RdName t => if bytes_list_eqb t (q_name q) then ScanLoop else scan_answer q rest (Some t)
+        | RdName t => if name_eqb t (q_name q) then ScanLoop else scan_answer q rest (Some t)
         | _ => scan_answer q rest pending
         end
       else scan_answer q rest pending
@@ -482,7 +484,7 @@ Fixpoint chase_loop (fuel : nat) (q : question) (o : oracle) (rcode : N) (answer
           else match last_cname_target ans None with
                | None => ChMsg rcode answer'
                | Some t' =>
-                   if bytes_list_eqb t' (q_name q) then ChServfail
+                   if name_eqb t' (q_name q) then ChServfail
                    else if Nat.ltb 0 f && negb (has_type (q_type q) ans)
                         then chase_loop f q o rcode answer' t' (targets ++ [target])
                         else ChMsg rcode answer'
